@@ -83,7 +83,10 @@ def main():
     nfiles = plan['nfiles']
     for i in range(nfiles):
         p = os.path.join(tmp, f'f{i}.log')
-        with open(p, 'w') as f:
+        # 'gz': the files are gzip-compressed (the task reads them through gzip.open)
+        opener = (lambda q: __import__('gzip').open(q, 'wt')) if plan.get('gz') else \
+            (lambda q: open(q, 'w'))
+        with opener(p) as f:
             # 'big': the files that are NOT hit produce far more result batches than the
             # (patched-down) results queue holds
             nlines = plan['big'] if plan.get('big') and i != plan['file'] else plan.get('lines', 40)
@@ -112,6 +115,9 @@ def main():
             time.sleep(plan['hold'])
         if plan['kind'] == 'exit':
             os._exit(3)
+        if plan.get('exc') == 'OSError':
+            # e.g. EIO from the disk / a damaged gzip member while the file is being read
+            raise OSError(5, f"Input/output error (injected at {point})")
         raise Injected(f"injected at {point}")
 
     orig_execute = TK.SearchTask.execute
@@ -202,7 +208,8 @@ def main():
     real_lock = RS.RESULTS_STORE_LOCK
 
     def searcher():
-        fs = FileSearcher(max_parallel_tasks=plan['workers'])
+        fs = FileSearcher(max_parallel_tasks=plan['workers'],
+                          decode_errors=plan.get('decode'))
         sd = SearchDef(r'(\S) (\S+) (\S+)', tag='t')
         seq = SequenceSearchDef(start=SearchDef(r'S (\S+)'), body=SearchDef(r'B (\S+)'),
                                 end=SearchDef(r'E (\S+)'), tag='q')
